@@ -41,6 +41,20 @@ where
     let m0 = if core::mem::size_of::<I>() * 8 == 64 && core::any::type_name::<I>().ends_with("size") { 0 } else { I::NBITS };
     rec_ord(ev, &mut || x.x_rev_cmp_int(I::SIGNED, m0, ib));
     ev.end();
+    // the same conversions through the az cast traits (feature "az", src/cast.rs)
+    ev.begin("zi", lay);
+    ev.arg_s(if I::SIGNED { "i" } else { "u" });
+    ev.arg(I::NBITS as u128);
+    ev.arg(a);
+    ev.arg(ib);
+    ev.sep();
+    for form in 0..6u8 {
+        rec_az(ev, form, &mut || F::az_from_int(form, I::SIGNED, m0, ib));
+    }
+    for form in 0..6u8 {
+        rec_az(ev, form, &mut || x.az_to_int(form, I::SIGNED, m0));
+    }
+    ev.end();
 }
 
 fn dispatch<F>(ev: &mut Ev, lay: Lay, isigned: bool, m: u32, a: u128, ib: u128)
@@ -77,6 +91,13 @@ where
     ev.rec_v(&mut || tb(F::saturating_from_num(b)));
     ev.rec_v(&mut || tb(F::wrapping_from_num(b)));
     ev.rec_o(&mut || tbo(F::overflowing_from_num(b)));
+    ev.end();
+    ev.begin("zb", lay);
+    ev.arg(b as u128);
+    ev.sep();
+    for form in 0..6u8 {
+        rec_az(ev, form, &mut || F::az_from_bool(form, b));
+    }
     ev.end();
 }
 
@@ -157,7 +178,7 @@ fn main() {
             macro_rules! one {
                 ($fam:ident, $u:ident, $s:expr, $n:expr, $f:expr) => {
                     if (Lay::new($s, $n, $f)) == want {
-                        if l[0] == "fb" {
+                        if l[0] == "fb" || l[0] == "zb" {
                             bool_ev::<$fam<$u>>(&mut ev, want, parse_hex(&l[2]) != 0);
                         } else if l[0] == "fs" {
                             same_ev::<$fam<$u>>(&mut ev, want, parse_hex(&l[2]), parse_hex(&l[3]));
